@@ -364,3 +364,41 @@ package kvgraph
 //@   ensures touch: result == nil ==> touched(kgdb.graph)
 //@   ensures atomic: kvwrites() <= old(kvwrites()) + 1
 //@   ensures unindexed: result == nil ==> (forall t:Str :: !kvhas(entryKeyOf(kgdb.graph + ".v.label", 1, t, id)))
+
+// BulkAdd (C18): one bulk write that applies insertVertex / insertEdge to the stream's
+// elements in arrival order - the same per-element operation AddVertex and AddEdge apply
+// one by one - so the only non-index keys that change are the keys of streamed elements;
+// the whole stream is consumed; an element that fails validation is skipped (insertVertex
+// #ensures:rejected leaves the store unchanged) without stopping the others.
+//@ func (*KVInterfaceGDB).BulkAdd
+//@   property C18 C03
+//@   option prelude=keys,kv
+//@   option load=kvindex,kvi,timestamp,gdbi,gripql
+//@   option globals=kvgraph
+//@   modifies KV. TS. SH.Str alloc H.kvindex.Doc. MapD.Str MapV.Str.Any MapN H.gripql. H.multierror. Box. Ch
+//@   requires nonnil: kgdb != nil && kgdb.kvg != nil && kgdb.kvg.kv != nil && kgdb.kvg.ts != nil && kgdb.kvg.idx != nil
+//@   requires idxrep: kgdb.kvg.idx.Fields != nil && (forall f:Str :: has(kgdb.kvg.idx.Fields, f) ==> len(kgdb.kvg.idx.Fields[f]) >= 1)
+//@   requires elems: forall j :: 0 <= j && j < len(stream) ==> stream[j] != nil
+//@   requires pos: 0 <= rd(stream) && rd(stream) <= len(stream)
+//@   loop 101 invariant idxrep: kgdb.kvg.idx.Fields != nil && (forall f:Str :: has(kgdb.kvg.idx.Fields, f) ==> len(kgdb.kvg.idx.Fields[f]) >= 1)
+//@   loop 101 invariant pos: 0 <= rd(stream) && rd(stream) <= len(stream)
+//@   loop 101 invariant frame: forall k:Str :: !idxkey(k) && !((kvhas(k) <==> old(kvhas(k))) && kvval(k) == old(kvval(k))) ==>
+//@       (exists j :: 0 <= j && j < rd(stream) && (
+//@          (stream[j].Vertex != nil && k == vkeyOf(kgdb.graph, stream[j].Vertex.ID)) ||
+//@          (stream[j].Vertex == nil && stream[j].Edge != nil && (
+//@             k == ekeyOf(kgdb.graph, stream[j].Edge.ID, stream[j].Edge.From, stream[j].Edge.To, stream[j].Edge.Label, 1) ||
+//@             k == skeyOf(kgdb.graph, stream[j].Edge.From, stream[j].Edge.To, stream[j].Edge.ID, stream[j].Edge.Label, 1) ||
+//@             k == dkeyOf(kgdb.graph, stream[j].Edge.From, stream[j].Edge.To, stream[j].Edge.ID, stream[j].Edge.Label, 1)))))
+//@   loop 101 invariant quiet: same(touchedset(), old(touchedset())) && (rd(stream) == 0 ==> !changed)
+//@   loop 101 invariant nw: kvwrites() == old(kvwrites())
+//@   ensures frame: forall k:Str :: !idxkey(k) && !((kvhas(k) <==> old(kvhas(k))) && kvval(k) == old(kvval(k))) ==>
+//@       (exists j :: 0 <= j && j < len(stream) && (
+//@          (stream[j].Vertex != nil && k == vkeyOf(kgdb.graph, stream[j].Vertex.ID)) ||
+//@          (stream[j].Vertex == nil && stream[j].Edge != nil && (
+//@             k == ekeyOf(kgdb.graph, stream[j].Edge.ID, stream[j].Edge.From, stream[j].Edge.To, stream[j].Edge.Label, 1) ||
+//@             k == skeyOf(kgdb.graph, stream[j].Edge.From, stream[j].Edge.To, stream[j].Edge.ID, stream[j].Edge.Label, 1) ||
+//@             k == dkeyOf(kgdb.graph, stream[j].Edge.From, stream[j].Edge.To, stream[j].Edge.ID, stream[j].Edge.Label, 1)))))
+//@   ensures drained: rd(stream) == len(stream)
+//@   ensures notouch: len(stream) == 0 ==> same(touchedset(), old(touchedset()))
+//@   ensures onlythis: forall g:Str :: g != kgdb.graph ==> (touched(g) <==> old(touched(g)))
+//@   ensures atomic: kvwrites() <= old(kvwrites()) + 1
